@@ -17,7 +17,8 @@ func init() {
 		Title:     "Endpoint verdicts follow tier, pass, staged and profile semantics",
 		Technique: "static analysis: enumeration of generictables.Rule literals of the endpoint/group chain renderers with may-derive operand facts, cut-set guards, dominance (go/ssa over felix/rules)",
 		DesignRef: "DESIGN.md §3 C09",
-		Explanation: "Decides structural necessary conditions in felix/rules: (staged) every PolicyChainName result that reaches an ActionFactory.Jump target is computed only where model.KindIsStaged(<same id>.Kind) is false, and the end-of-tier-drop flag is only raised under PolicyGroup.HasNonStagedPolicies(); " +
+		Explanation: "Decides structural necessary conditions in felix/rules: (staged) every PolicyChainName result that reaches an ActionFactory.Jump target is computed only where model.KindIsStaged(<same id>.Kind) is false, and the end-of-tier deny is rendered only where a condition derived from PolicyGroup.HasNonStagedPolicies() (a flag raised under it, the call, or a helper / slices.ContainsFunc built on it) is true; " +
+			"(direction) that end-of-tier decision, the skipping of return-on-accept/notrack rules after a jump, and the tier-non-empty test look only at the policy groups of the direction being rendered, i.e. the slice (and group) the policy jumps are rendered from; " +
 			"(faildeny) an admin-down endpoint chain is an unconditional deny returned under !adminUp; on every chainTypeNormal path the last rule of the returned chain is an unconditional IptablesFilterDenyAction rule; the deny action is only ever a Drop/Reject action; " +
 			"(tiermarks) the accept|pass bits are cleared before any policy jump; each tier starts by clearing exactly MarkPass; every policy/group jump is conditioned on MarkClear(MarkPass); every conditional return tests MarkSingleBitSet(MarkAccept) (the unconditional one directly follows SetMark(MarkAccept)); " +
 			"the end-of-tier deny matches MarkClear(MarkPass) and is guarded by the non-staged flag and DefaultAction != Pass; profile jumps are followed by return-on-accept; " +
@@ -36,6 +37,12 @@ func init() {
 				Old: "\t\tif model.KindIsStaged(pol.Kind) {\n\t\t\tlogrus.Debugf(\"Skip programming staged policy %v\", pol)\n\t\t\tcontinue\n\t\t}\n", New: "", Expect: "C09.staged/jump/DefaultRuleRenderer.PolicyGroupToIptablesChains"},
 			{Name: "staged-only tier drops at end of tier", File: "felix/rules/endpoints.go",
 				Old: "\t\t\t\tif groupHasNonStagedPols {\n\t\t\t\t\tendOfTierDrop = true\n\t\t\t\t}", New: "\t\t\t\tendOfTierDrop = true", Expect: "C09.staged/end-of-tier-flag"},
+			{Name: "end-of-tier drop also raised by the other direction's groups", File: "felix/rules/endpoints.go",
+				Old: "\t\t\tendOfTierDrop := false\n", New: "\t\t\tendOfTierDrop := false\n\t\t\tfor _, g := range tier.EgressPolicies {\n\t\t\t\tif g.HasNonStagedPolicies() {\n\t\t\t\t\tendOfTierDrop = true\n\t\t\t\t}\n\t\t\t}\n", Expect: "C09.direction/end-of-tier-drop"},
+			{Name: "return-on-accept skipped depending on another group", File: "felix/rules/endpoints.go",
+				Old: "\t\t\t\t\tif !groupHasNonStagedPols {\n", New: "\t\t\t\t\tif !policyGroups[0].HasNonStagedPolicies() {\n", Expect: "C09.direction/verdict-rule/Return"},
+			{Name: "tier rendered only when it has ingress groups", File: "felix/rules/endpoints.go",
+				Old: "\t\tif len(policyGroups) > 0 {\n", New: "\t\tif len(tier.IngressPolicies) > 0 {\n", Expect: "C09.direction/nonempty-guard"},
 			{Name: "admin-down endpoint allows", File: "felix/rules/endpoints.go",
 				Old: "\t\t\tAction:  r.IptablesFilterDenyAction(),\n\t\t\tComment: []string{\"Endpoint admin disabled\"},", New: "\t\t\tAction:  r.Return(),\n\t\t\tComment: []string{\"Endpoint admin disabled\"},", Expect: "C09.faildeny/admin-down"},
 			{Name: "final profile deny made conditional", File: "felix/rules/endpoints.go",
@@ -202,6 +209,7 @@ func runC09(c *Ctx) {
 		},
 	}
 	c.Rule("C09.staged", "E-GUARD", "PolicyChainName results reaching Jump are computed only where !KindIsStaged(same id.Kind); end-of-tier-drop flag raised only under HasNonStagedPolicies()", 3)
+	c.Rule("C09.direction", "E-FLOW", "per-tier decisions of the endpoint chain (end-of-tier drop, return-on-accept after a jump, tier non-empty) look only at the policy groups of the direction being rendered: the slice (and group) the policy jumps are rendered from, directly or through helpers", 4)
 	c.Rule("C09.faildeny", "E-ORDER", "admin-down chain = unconditional deny; last rule on every chainTypeNormal path is an unconditional deny; deny action is Drop/Reject", 3)
 	c.Rule("C09.tiermarks", "E-GUARD/E-CONST", "mark operands and guards of the tier loop: clear accept|pass first, tier start clears pass, jumps need pass clear, returns need accept set, end-of-tier deny needs pass clear under non-staged flag && DefaultAction != Pass", 8)
 	c.Rule("C09.stride", "E-GUARD", "policy-group chain: empty-match jump only at count%stride==0, otherwise MarkClear(pass|accept); return-on-verdict under the same stride test", 2)
@@ -212,6 +220,7 @@ func runC09(c *Ctx) {
 		c.Lost("endpointIptablesChain / PolicyGroupToIptablesChains")
 	}
 	c09Staged(m, inRP, ep)
+	c09Direction(m, ep)
 	c09FailDeny(m, ep)
 	c09TierMarks(m, ep)
 	c09Stride(m, grp)
@@ -262,73 +271,311 @@ func c09Staged(m *c09Model, inRP func(*ssa.Function) bool, ep *ssa.Function) {
 	if n == 0 {
 		c.Lost("no PolicyChainName result reaches an ActionFactory.Jump in felix/rules")
 	}
-	// end-of-tier flag: the bool phi guarding the end-of-tier deny gets `true`
-	// only under HasNonStagedPolicies().
-	flag := c09EndOfTierFlag(m, ep)
-	if flag == nil {
-		c.Lost("end-of-tier-drop flag (bool phi guarding the MarkClear(MarkPass) deny) in endpointIptablesChain")
+	// end-of-tier drop: the deny is reachable only where a condition derived from
+	// HasNonStagedPolicies() is true (a flag raised under it, the call itself, or
+	// a helper built on it).
+	ns := c09NewNS()
+	pol, _ := c09PolicyJumps(m, ep)
+	denies := c09EndOfTierDenies(m, ep, pol)
+	if len(denies) == 0 {
+		c.Lost("end-of-tier deny (IptablesFilterDenyAction rule with a MarkClear match inside the tier loop) in endpointIptablesChain")
 	}
-	bad := ""
-	nTrue := 0
-	seen := map[*ssa.Phi]bool{}
-	var rec func(ph *ssa.Phi)
-	rec = func(ph *ssa.Phi) {
-		if seen[ph] {
-			return
+	for _, l := range denies {
+		acc := &c09NSRes{OK: true}
+		if guardedCut(l.At, ns.edgePred(acc, map[ssa.Value]bool{}, 0)) {
+			c.Ok("C09.staged/end-of-tier-flag", p.Pos(l.At.Pos()), "end-of-tier deny rendered only where a condition derived from HasNonStagedPolicies() of %s is true", acc.srcList())
+			continue
 		}
-		seen[ph] = true
-		for i, e := range ph.Edges {
-			switch x := e.(type) {
-			case *ssa.Phi:
-				rec(x)
-			case *ssa.Const:
-				if x.Value != nil && constant.BoolVal(x.Value) {
-					nTrue++
-					pred := ph.Block().Preds[i]
-					if !guardedCut(pred.Instrs[len(pred.Instrs)-1], callCond(true, func(g CallSite) bool {
-						return isFunc(g.Callee, c08RulesPkg, "PolicyGroup.HasNonStagedPolicies")
-					})) {
-						bad = "the flag is set to true on a path not guarded by PolicyGroup.HasNonStagedPolicies()"
-					}
-				}
-			default:
-				// any non-constant source must itself be the HasNonStagedPolicies result
-				if cs, ok := condCall(e); !ok || !isFunc(cs.Callee, c08RulesPkg, "PolicyGroup.HasNonStagedPolicies") {
-					bad = "the flag takes a value that is neither a constant nor HasNonStagedPolicies(): " + path(e)
-				} else {
-					nTrue++
-				}
-			}
+		why, unknown := c09WhyNotGuarded(ns, l)
+		if unknown {
+			c.Undecided("C09.staged/end-of-tier-flag", p.Pos(l.At.Pos()), "end-of-tier drop: %s", why)
+		} else {
+			c.Violate("C09.staged/end-of-tier-flag", p.Pos(l.At.Pos()), "end-of-tier drop: %s (a tier holding only staged policies would drop)", why)
 		}
 	}
-	rec(flag)
-	if nTrue == 0 && bad == "" {
-		bad = "the flag is never set"
-	}
-	c.Check(bad == "", "C09.staged/end-of-tier-flag", p.Pos(flag.Pos()),
-		"end-of-tier-drop flag raised only under HasNonStagedPolicies()", "end-of-tier drop: "+bad+" (a tier holding only staged policies would drop)")
 }
 
-// c09EndOfTierFlag finds the bool phi that guards (true) the deny literal whose
-// match is MarkClear(MarkPass).
-func c09EndOfTierFlag(m *c09Model, ep *ssa.Function) *ssa.Phi {
+func c09NewNS() *c09NS {
+	return &c09NS{isHNS: func(f *types.Func) bool { return isFunc(f, c08RulesPkg, "PolicyGroup.HasNonStagedPolicies") }}
+}
+
+// c09WhyNotGuarded explains why no non-staged derived condition guards l: it
+// evaluates the non-comparison conditions l is control-dependent on.
+func c09WhyNotGuarded(ns *c09NS, l c09Lit) (why string, unknown bool) {
+	var whys []string
+	for _, g := range guardsOf(l.At) {
+		if !g.True || !c09Candidate(g.Cond) {
+			continue
+		}
+		r := ns.eval(g.Cond)
+		switch {
+		case !r.OK:
+			whys = append(whys, "the flag "+pathN(g.Cond, 2)+" is not raised only under HasNonStagedPolicies(): "+r.Why)
+			unknown = unknown || r.Unknown
+		case len(r.Srcs) == 0:
+			whys = append(whys, "the flag "+pathN(g.Cond, 2)+" is never set")
+		}
+	}
+	if len(whys) == 0 {
+		return "the end-of-tier deny is not guarded by any flag or call derived from PolicyGroup.HasNonStagedPolicies()", false
+	}
+	return strings.Join(whys, "; "), unknown
+}
+
+// c09PolicyJumps: the Jump rule literals of the endpoint chain whose target
+// derives from a policy / policy-group chain name, and from a profile chain name.
+func c09PolicyJumps(m *c09Model, ep *ssa.Function) (polJumps, profJumps []c09Lit) {
+	ctx := &c08Ctx{fn: ep}
+	for _, l := range c09Literals(ep) {
+		if l.ActName != "Jump" || !c08IsInvokeOf(l.ActCall.Common(), c08ActionIface) {
+			continue
+		}
+		f := m.ev.facts(l.ActCall.Common().Args[0], ctx)
+		isPol, isProf := false, false
+		for _, src := range f.Calls {
+			switch calleeOf(src.Common()).Name() {
+			case "PolicyChainName", "ChainName":
+				isPol = true
+			case "ProfileChainName":
+				isProf = true
+			}
+		}
+		if isPol {
+			polJumps = append(polJumps, l)
+		}
+		if isProf {
+			profJumps = append(profJumps, l)
+		}
+	}
+	if len(polJumps) == 0 || len(profJumps) == 0 {
+		m.c.Lost("policy (%d) / profile (%d) jump rules in endpointIptablesChain", len(polJumps), len(profJumps))
+	}
+	return
+}
+
+func c09InLoopWith(l c09Lit, jumps []c09Lit) bool {
+	for _, j := range jumps {
+		if instrReaches(j.At, l.At) && instrReaches(l.At, j.At) {
+			return true
+		}
+	}
+	return false
+}
+
+// c09EndOfTierDenies: deny literals with a MarkClear(…) match inside the tier loop.
+func c09EndOfTierDenies(m *c09Model, ep *ssa.Function, polJumps []c09Lit) []c09Lit {
+	var out []c09Lit
 	for _, l := range c09Literals(ep) {
 		if l.ActName != "IptablesFilterDenyAction" {
 			continue
 		}
 		sh := m.shapes(l, ep)
-		if len(sh) != 1 || !strings.HasPrefix(sh[0], "MarkClear(") {
+		if len(sh) != 1 || !strings.HasPrefix(sh[0], "MarkClear(") || !c09InLoopWith(l, polJumps) {
 			continue
 		}
-		for _, g := range guardsOf(l.At) {
-			if ph, ok := g.Cond.(*ssa.Phi); ok && g.True {
-				if b, ok := ph.Type().Underlying().(*types.Basic); ok && b.Kind() == types.Bool {
-					return ph
+		out = append(out, l)
+	}
+	return out
+}
+
+// ---------------------------------------------------------------- direction --
+
+// c09JumpGroups: for every policy jump, the policy group it renders (receiver of
+// ChainName, or the group whose Policies the inlined policy id is taken from)
+// and the slice of groups that group is an element of.
+func c09JumpGroups(m *c09Model, ep *ssa.Function, polJumps []c09Lit) (groups []ssa.Value, slices []c09Src, bad string) {
+	ctx := &c08Ctx{fn: ep}
+	addG := func(g ssa.Value) {
+		for _, o := range groups {
+			if o == g {
+				return
+			}
+		}
+		groups = append(groups, g)
+		s := c09ElemOf(g)
+		if s == nil {
+			bad = "policy group " + path(g) + " is not an element of a group slice"
+			return
+		}
+		b, sel := c09Norm(s)
+		src := c09Src{b, sel, true}
+		for _, o := range slices {
+			if o.same(src) {
+				return
+			}
+		}
+		slices = append(slices, src)
+	}
+	for _, j := range polJumps {
+		f := m.ev.facts(j.ActCall.Common().Args[0], ctx)
+		for _, src := range f.Calls {
+			cal := calleeOf(src.Common())
+			switch {
+			case isFunc(cal, c08RulesPkg, "PolicyGroup.ChainName"):
+				addG(src.Common().Args[0])
+			case isFunc(cal, c08RulesPkg, "PolicyChainName"):
+				ids := c09ElemOf(src.Common().Args[1])
+				_, fld, base, ok := fieldOf(ids)
+				if ids == nil || !ok || fld != "Policies" || namedTypeName(base.Type()) != "PolicyGroup" {
+					bad = "inlined policy id " + path(src.Common().Args[1]) + " is not an element of a PolicyGroup's Policies"
+					continue
 				}
+				addG(base)
 			}
 		}
 	}
-	return nil
+	return
+}
+
+// c09Direction: every decision of the tier loop that depends on "which groups
+// does this tier hold" looks at the groups of the direction being rendered —
+// the very slice the policy jumps are rendered from.
+func c09Direction(m *c09Model, ep *ssa.Function) {
+	c, p := m.c, m.p
+	polJumps, _ := c09PolicyJumps(m, ep)
+	groups, dirs, bad := c09JumpGroups(m, ep, polJumps)
+	if bad != "" || len(groups) == 0 {
+		c.Lost("policy groups rendered by the policy jumps of endpointIptablesChain: %s", bad)
+	}
+	if len(dirs) != 1 {
+		var ds []string
+		for _, d := range dirs {
+			ds = append(ds, d.String())
+		}
+		c.Undecided("C09.direction/group-slice", p.Pos(ep.Pos()), "policy jumps are rendered from %d group slices (%s); cannot tell which one an end-of-tier decision belongs to", len(dirs), strings.Join(ds, ", "))
+		return
+	}
+	D := dirs[0]
+	allowed := func(s c09Src) bool {
+		if s.same(D) {
+			return true
+		}
+		for _, g := range groups {
+			if b, sel := c09Norm(g); s.same(c09Src{b, sel, false}) {
+				return true
+			}
+		}
+		return false
+	}
+	ns := c09NewNS()
+	lits := c09Literals(ep)
+
+	// (1) the end-of-tier deny is reachable only where a non-staged condition
+	// over the rendered direction's groups is true.
+	for _, l := range c09EndOfTierDenies(m, ep, polJumps) {
+		site := p.Pos(l.At.Pos())
+		busy := map[ssa.Value]bool{}
+		dirPred := func(cond ssa.Value, pol bool) bool {
+			acc := &c09NSRes{OK: true}
+			if !ns.edgePred(acc, busy, 0)(cond, pol) {
+				return false
+			}
+			for _, s := range acc.Srcs {
+				if !allowed(s) {
+					return false
+				}
+			}
+			return true
+		}
+		if guardedCut(l.At, dirPred) {
+			c.Ok("C09.direction/end-of-tier-drop", site, "end-of-tier deny decided by HasNonStagedPolicies() of %s, the groups the policy jumps are rendered from", D)
+			continue
+		}
+		// diagnose: which groups do the guarding conditions look at?
+		var foreign []string
+		extra, derived := false, false
+		for _, g := range guardsOf(l.At) {
+			if !g.True || !c09Candidate(g.Cond) {
+				continue
+			}
+			r := ns.eval(g.Cond)
+			if !r.OK || len(r.Srcs) == 0 {
+				continue
+			}
+			derived = true
+			extra = extra || r.Extra
+			for _, s := range r.Srcs {
+				if !allowed(s) {
+					foreign = append(foreign, s.String())
+				}
+			}
+		}
+		switch {
+		case !derived:
+			// C09.staged/end-of-tier-flag reports the missing guard
+			c.Violate("C09.direction/end-of-tier-drop", site, "end-of-tier deny is not decided by HasNonStagedPolicies() of the groups being rendered (%s)", D)
+		case extra:
+			c.Undecided("C09.direction/end-of-tier-drop", site, "the end-of-tier-drop decision is made by a helper that looks at %s depending on further parameters; cannot tell whether it selects the rendered direction (%s)", strings.Join(foreign, ", "), D)
+		default:
+			sort.Strings(foreign)
+			c.Violate("C09.direction/end-of-tier-drop", site,
+				"the end-of-tier-drop decision looks at HasNonStagedPolicies() of %s, but the policy jumps of this chain are rendered from %s: a tier whose policies in this direction are all staged gets an end-of-tier deny because of an enforced policy of the other direction (a staged policy changes the verdict)",
+				strings.Join(foreign, ", "), D)
+		}
+	}
+
+	// (2) rules that follow a policy jump and are skipped for all-staged groups
+	// (return-on-accept, notrack) ask the group that was jumped to.
+	for _, l := range lits {
+		if (l.ActName != "Return" && l.ActName != "NoTrack") || !c09InLoopWith(l, polJumps) {
+			continue
+		}
+		for _, g := range guardsOf(l.At) {
+			cs, ok := condCall(g.Cond)
+			if !ok || !ns.isHNS(cs.Callee) {
+				continue
+			}
+			recv := cs.Args()[0]
+			okG := false
+			for _, gr := range groups {
+				if gr == recv {
+					okG = true
+				}
+			}
+			c.Check(okG && g.True, "C09.direction/verdict-rule/"+l.ActName, p.Pos(l.At.Pos()),
+				l.ActName+"-on-accept rule after a policy jump is rendered when the jumped-to group "+path(recv)+" has non-staged policies",
+				fmt.Sprintf("%s-on-accept rule after a policy jump is rendered depending on HasNonStagedPolicies() of %s (=%v), not of the group the jump was rendered for (%s): an enforced policy's accept would not end the chain", l.ActName, path(recv), g.True, path(groups[0])))
+		}
+	}
+
+	// (3) emptiness tests on a group slice that guard tier-loop rules test the rendered slice.
+	seen := map[ssa.Value]bool{}
+	for _, l := range lits {
+		if !c09InLoopWith(l, polJumps) {
+			continue
+		}
+		for _, g := range guardsOf(l.At) {
+			bo, ok := g.Cond.(*ssa.BinOp)
+			if !ok || seen[bo] {
+				continue
+			}
+			for _, pr := range [][2]ssa.Value{{bo.X, bo.Y}, {bo.Y, bo.X}} {
+				lc, isLen := pr[0].(*ssa.Call)
+				if _, isK := pr[1].(*ssa.Const); !isK || !isLen {
+					continue
+				}
+				cc, isB := isBuiltinCall(lc, "len")
+				if !isB || len(cc.Args) != 1 || !c09IsGroupSlice(cc.Args[0].Type()) {
+					continue
+				}
+				seen[bo] = true
+				b, sel := c09Norm(cc.Args[0])
+				got := c09Src{b, sel, true}
+				c.Check(got.same(D), "C09.direction/nonempty-guard", p.Pos(bo.Pos()),
+					"tier rules are rendered depending on len("+got.String()+"), the groups the policy jumps are rendered from",
+					"tier rules are rendered depending on len("+got.String()+"), but the policy jumps are rendered from "+D.String()+": a tier with policies only in the other direction is rendered (or skipped) for this direction")
+			}
+		}
+	}
+}
+
+func c09IsGroupSlice(t types.Type) bool {
+	sl, ok := t.Underlying().(*types.Slice)
+	if !ok {
+		return false
+	}
+	pt, ok := sl.Elem().Underlying().(*types.Pointer)
+	return ok && namedTypeName(pt.Elem()) == "PolicyGroup"
 }
 
 // ----------------------------------------------------------------- faildeny --
@@ -612,33 +859,7 @@ func c09LastElemLiteral(v ssa.Value) ssa.Value {
 func c09TierMarks(m *c09Model, ep *ssa.Function) {
 	c, p := m.c, m.p
 	lits := c09Literals(ep)
-	ctx := &c08Ctx{fn: ep}
-	// policy / group / profile jumps
-	var polJumps, profJumps []c09Lit
-	for _, l := range lits {
-		if l.ActName != "Jump" || !c08IsInvokeOf(l.ActCall.Common(), c08ActionIface) {
-			continue
-		}
-		f := m.ev.facts(l.ActCall.Common().Args[0], ctx)
-		isPol, isProf := false, false
-		for _, src := range f.Calls {
-			switch calleeOf(src.Common()).Name() {
-			case "PolicyChainName", "ChainName":
-				isPol = true
-			case "ProfileChainName":
-				isProf = true
-			}
-		}
-		if isPol {
-			polJumps = append(polJumps, l)
-		}
-		if isProf {
-			profJumps = append(profJumps, l)
-		}
-	}
-	if len(polJumps) == 0 || len(profJumps) == 0 {
-		c.Lost("policy (%d) / profile (%d) jump rules in endpointIptablesChain", len(polJumps), len(profJumps))
-	}
+	polJumps, profJumps := c09PolicyJumps(m, ep)
 	// (1) verdict bits cleared before any policy jump
 	var firstClear *c09Lit
 	for i, l := range lits {
@@ -712,32 +933,16 @@ func c09TierMarks(m *c09Model, ep *ssa.Function) {
 	} else {
 		c.Lost("v3.Pass")
 	}
-	flag := c09EndOfTierFlag(m, ep)
+	ns := c09NewNS()
 	nEOT := 0
-	for _, l := range lits {
-		if l.ActName != "IptablesFilterDenyAction" {
-			continue
-		}
+	for _, l := range c09EndOfTierDenies(m, ep, polJumps) {
 		sh := m.shapes(l, ep)
-		if len(sh) != 1 || !strings.HasPrefix(sh[0], "MarkClear(") {
-			continue
-		}
-		// only those inside the tier loop (reach a policy jump again or are reached from one)
-		inLoop := false
-		for _, j := range polJumps {
-			if instrReaches(j.At, l.At) && instrReaches(l.At, j.At) {
-				inLoop = true
-			}
-		}
-		if !inLoop {
-			continue
-		}
 		nEOT++
 		var bad []string
 		if sh[0] != "MarkClear(MarkPass)" {
 			bad = append(bad, "match is "+sh[0]+", want MarkClear(MarkPass)")
 		}
-		if flag == nil || !guardedCut(l.At, func(cond ssa.Value, pol bool) bool { return cond == ssa.Value(flag) && pol }) {
+		if !guardedCut(l.At, ns.edgePred(&c09NSRes{OK: true}, map[ssa.Value]bool{}, 0)) {
 			bad = append(bad, "not guarded by the non-staged (end-of-tier-drop) flag")
 		}
 		if !guardedCut(l.At, func(cond ssa.Value, pol bool) bool {
